@@ -396,6 +396,9 @@ class ExprMixin:
             r = self.call_function(fb, [b, a])
             if r is not NOTIMPL:
                 return r
+        if ca is None and cb is None:
+            # neither operand is an object of the library: a built-in operation the executor does not model (str * n, ...) - not a TypeError of the program
+            raise OutsideSubset(f"operator {name} on {type(a).__name__} and {type(b).__name__} is not modelled")
         raise RaiseEx("TypeError", f"unsupported operand types for {name}")
 
     def class_of(self, v):
